@@ -157,6 +157,85 @@ CORPUS = [
 	} else if rc > lc {
 		return -1
 	}""", 1)]),
+    # ---- harmless edits of functions that came under contract last (must stay quiet)
+    ("c08-ok-delete-helper-temp-variable", "C08", "pass", [("transaction.go", """	// append oplog
+	for _, doc := range res.Matched {
+		err = t.append(oplog, handle, "delete", doc, nil)
+		if err != nil {
+			return nil, err
+		}
+	}
+""", """	// append oplog
+	matched := res.Matched
+	for _, doc := range matched {
+		if err = t.append(oplog, handle, "delete", doc, nil); err != nil {
+			return nil, err
+		}
+	}
+""", 1)]),
+    ("c10-ok-or-restructured", "C10", "pass", [("mongokit/match.go", """		err := Process(ctx, doc, query, "", true)
+		if err == ErrNotMatched {
+			continue
+		} else if err != nil {
+			return err
+		}
+
+		return nil
+	}
+
+	return ErrNotMatched
+}
+
+func matchNor""", """		err := Process(ctx, doc, query, "", true)
+		if err == nil {
+			return nil
+		}
+		if err != ErrNotMatched {
+			return err
+		}
+	}
+
+	return ErrNotMatched
+}
+
+func matchNor""", 1)]),
+    ("c08-ok-drop-local-renamed", "C08", "pass", [("transaction.go", "(t *Transaction) Drop", {"dropped": "count"}, "rename")]),
+    ("c11-ok-push-local-renamed", "C11", "pass", [("mongokit/apply.go", "applyPush", {"newArr": "out"}, "rename")]),
+    ("c13-ok-collect-local-renamed", "C13", "pass", [("bsonkit/lists.go", "Collect", {"prevValue": "last"}, "rename")]),
+    # ---- and property-breaking ones (must fail)
+    ("c10-or-stops-at-first-mismatch", "C10", "fail", [("mongokit/match.go", """		err := Process(ctx, doc, query, "", true)
+		if err == ErrNotMatched {
+			continue
+		} else if err != nil {
+			return err
+		}
+
+		return nil
+	}
+
+	return ErrNotMatched
+}
+
+func matchNor""", """		err := Process(ctx, doc, query, "", true)
+		if err == ErrNotMatched {
+			break
+		} else if err != nil {
+			return err
+		}
+
+		return nil
+	}
+
+	return ErrNotMatched
+}
+
+func matchNor""", 1)]),
+    ("c11-push-values-before-prefix", "C11", "fail", [("mongokit/apply.go", """	newArr = append(newArr, arr[:insertAt]...)
+	newArr = append(newArr, values...)
+""", """	newArr = append(newArr, values...)
+	newArr = append(newArr, arr[:insertAt]...)
+""", 1)]),
+    ("c01-find-skip-limit-swapped", "C01", "fail", [("transaction.go", "res, err := t.catalog.Namespaces[handle].Find(query, sort, skip, limit)", "res, err := t.catalog.Namespaces[handle].Find(query, sort, limit, skip)", 1)]),
 ]
 
 
